@@ -3,6 +3,7 @@ package mon
 import (
 	"bufio"
 	"fmt"
+	"math"
 	"os"
 	"path/filepath"
 	"strings"
@@ -221,6 +222,22 @@ func c19Flat(c *core.Ctx, p string, limit int, neg, fwd bool, kind string, pinne
 		s.SetErr(errPolicyRejects)
 		desc["prior_error"] = true
 		c.Count("with-prior-error")
+	}
+	if !pinned && c.Idx%5 == 2 {
+		// a Defrag refused because the stack is read-only leaves nothing behind: once the flag is lifted the call works
+		s.SetReadOnly(true)
+		if limit == 0 {
+			s.Defrag()
+		} else {
+			s.Defrag(limit)
+		}
+		if got := contentOf(s); !sameContent(got, orig) {
+			c.Violatef("defrag:changed-while-read-only", desc, "Defrag changed a read-only stack: %s -> %s", showList(orig), showList(got))
+			return
+		}
+		s.SetReadOnly(false)
+		desc["refused_once_while_read_only"] = true
+		c.Count("refused-once-while-read-only")
 	}
 	before, _ := Take(s)
 	var pn bool
@@ -495,7 +512,10 @@ func c19Run(c *core.Ctx, idx int) {
 			}
 		}
 		lim := c19Limits[r.Intn(3)]
-		if r.Chance(1, 4) {
+		if r.Chance(1, 8) {
+			lim = []int{math.MaxInt, math.MaxInt - 3, math.MaxInt / 2, 1 << 40}[r.Intn(4)] // "no limit to speak of"
+			c.Count("patterns.huge-limit")
+		} else if r.Chance(1, 4) {
 			// one long nil run just below an explicit limit above the default of 50
 			lim = []int{51, 60, 64, 100, 200}[r.Intn(5)]
 			run := r.Range(45, lim-1)
